@@ -183,3 +183,69 @@ Example C12_buffered_two_slots_tight :
   let s := buf_reach 8 2 [Inp true 5 false] in
   (buf_abs 2 s, w_rdy (buf_out 2 s)) = ([5], false).
 Proof. vm_compute. reflexivity. Qed.
+
+(* ================================================================== runs with synchronous resets
+   (audit follow-up: the domain's reset asserted in arbitrary cycles).  `sync_reach_r` / `buf_reach_r` drive a
+   list of (inputs, rst); a reset at the edge of a cycle empties the queue, every other clause is unchanged. *)
+Theorem C12_sync_fifo_refines_queue_with_reset w d ins i r : 0 <= d ->
+  let c := sync_reach_r w d ins in
+  let o := snd (sync_step_r w d c (i, r)) in
+  let c' := fst (sync_step_r w d c (i, r)) in
+  let q := sync_abs d c in
+  (r_rdy o = true <-> q <> []) /\
+  (r_rdy o = true -> exists t, q = r_data o :: t) /\
+  (w_rdy o = true <-> qlen q < d) /\
+  level o = qlen q /\ w_level o = qlen q /\ r_level o = qlen q /\
+  qlen q <= d /\
+  sync_abs d c' = if r then [] else q_next w q (w_rdy o && w_en i) (w_data i) (r_rdy o && r_en i).
+Proof. exact (sync_refines_queue_r w d ins i r). Qed.
+Print Assumptions C12_sync_fifo_refines_queue_with_reset.
+
+Theorem C12_buffered_fifo_refines_queue_with_reset w d ins i r : 0 <= d ->
+  let s := buf_reach_r w d ins in
+  let o := snd (buf_step_r w d s (i, r)) in
+  let s' := fst (buf_step_r w d s (i, r)) in
+  let q := buf_abs d s in
+  (r_rdy o = true -> exists t, q = r_data o :: t) /\
+  (w_rdy o = true -> qlen q < d) /\
+  (qlen q + 2 <= d -> w_rdy o = true) /\
+  level o = qlen q /\ w_level o = qlen q /\ r_level o = qlen q /\
+  qlen q <= d /\
+  buf_abs d s' = if r then [] else q_next w q (w_rdy o && w_en i) (w_data i) (r_rdy o && r_en i).
+Proof. exact (buf_refines_queue_r w d ins i r). Qed.
+Print Assumptions C12_buffered_fifo_refines_queue_with_reset.
+
+Theorem C12_buffered_readable_within_two_with_reset w d ins i x t : 0 <= d ->
+  let s := buf_reach_r w d ins in
+  buf_abs d s = x :: t ->
+  (r_rdy (buf_out d s) = true /\ r_data (buf_out d s) = x) \/
+  (r_rdy (buf_out d (fst (buf_step w d s i))) = true /\
+   r_data (buf_out d (fst (buf_step w d s i))) = x).
+Proof. exact (buf_readable_within_two_r w d ins i x t). Qed.
+Print Assumptions C12_buffered_readable_within_two_with_reset.
+
+(* non-vacuity: two writes, a reset in the cycle of a third (accepted) write, then a write: the queue holds only
+   the entry written after the reset; the third write landed in the memory (row 2) but is not an entry *)
+Example C12_reset_example :
+  let ins := [(Inp true 5 false, false); (Inp true 7 false, false); (Inp true 9 false, true);
+              (Inp true 11 false, false)] in
+  (sync_abs 3 (sync_reach_r 8 3 (firstn 2 ins)), sync_abs 3 (sync_reach_r 8 3 (firstn 3 ins)),
+   sync_abs 3 (sync_reach_r 8 3 ins), rows (sync_reach_r 8 3 ins),
+   buf_abs 4 (buf_reach_r 8 4 (firstn 2 ins)), buf_abs 4 (buf_reach_r 8 4 ins))
+  = ([5; 7], [], [11], [11; 7; 9], [5; 7], [11]).
+Proof. vm_compute. reflexivity. Qed.
+
+(* ================================================================== regenerated from the source (translator unit `fifo`)
+   Gen/FifoGen.v is produced on every run by translator/unit_fifo.py from the current text of
+   amaranth/lib/fifo.py (symbolic execution of SyncFIFO.elaborate / SyncFIFOBuffered.elaborate, _incr and
+   the constructors); the step functions every theorem above talks about are these, for all w, d, states, inputs. *)
+From V.Gen Require FifoGen.
+From V.Proofs Require GenEqFifo.
+
+Theorem C12_translated_sync_step w d c i : FifoGen.g_sync_step w d c i = sync_step w d c i.
+Proof. exact (GenEqFifo.gen_sync_step_eq w d c i). Qed.
+Print Assumptions C12_translated_sync_step.
+
+Theorem C12_translated_buf_step w d s i : FifoGen.g_buf_step w d s i = buf_step w d s i.
+Proof. exact (GenEqFifo.gen_buf_step_eq w d s i). Qed.
+Print Assumptions C12_translated_buf_step.
